@@ -18,6 +18,8 @@ namespace SndK
 open SenderOnK
 open TimerK (lookup)
 
+deriving instance DecidableEq for QEntry
+
 abbrev St := SnSt ℚ
 abbrev KS := KState ℚ St
 abbrev Ack := AckIn ℚ
